@@ -217,6 +217,9 @@ struct Mech {
 	CK_OBJECT_HANDLE oh;
 	bool isnull;
 };
+// the value output handle variables hold before a creating call: the handle of the object created last (still alive or not)
+static CK_OBJECT_HANDLE presetH = 0;
+
 static CK_MECHANISM_PTR parseMech(Mech &M, const std::string &s)
 {
 	std::vector<std::string> q = split(s, ':');
@@ -437,18 +440,18 @@ static void runOp(const std::vector<std::string> &w)
 	}
 	else if (op == "create") {
 		Tmpl t; parseTemplate(t, w, 2);
-		CK_OBJECT_HANDLE h = 0;
+		CK_OBJECT_HANDLE h = presetH;   // an application's output variable may hold anything, e.g. a live handle
 		rv = F->C_CreateObject(handleArg(w[1]), t.ptr(), t.a.size(), &h);
 		rvOut(rv);
-		if (rv == CKR_OK) { out += " h=" + bindHandle(h); kv("raw", h); }
+		if (rv == CKR_OK) { out += " h=" + bindHandle(h); kv("raw", h); presetH = h; }
 	}
 	else if (op == "copy") {
 		Tmpl t; parseTemplate(t, w, 3);
-		CK_OBJECT_HANDLE h = 0;
+		CK_OBJECT_HANDLE h = presetH;   // an application's output variable may hold anything, e.g. a live handle
 		CK_ATTRIBUTE dummy;
 		rv = F->C_CopyObject(handleArg(w[1]), handleArg(w[2]), t.a.empty() ? &dummy : t.ptr(), t.a.size(), &h);
 		rvOut(rv);
-		if (rv == CKR_OK) { out += " h=" + bindHandle(h); kv("raw", h); }
+		if (rv == CKR_OK) { out += " h=" + bindHandle(h); kv("raw", h); presetH = h; }
 	}
 	else if (op == "destroy") { rv = F->C_DestroyObject(handleArg(w[1]), handleArg(w[2])); rvOut(rv); }
 	else if (op == "objsize") {
@@ -588,10 +591,10 @@ static void runOp(const std::vector<std::string> &w)
 		// genkey <hS> <mech> <template...>
 		Mech M; CK_MECHANISM_PTR m = parseMech(M, w[2]);
 		Tmpl t; parseTemplate(t, w, 3);
-		CK_OBJECT_HANDLE h = 0;
+		CK_OBJECT_HANDLE h = presetH;   // an application's output variable may hold anything, e.g. a live handle
 		rv = F->C_GenerateKey(handleArg(w[1]), m, t.ptr(), t.a.size(), &h);
 		rvOut(rv);
-		if (rv == CKR_OK) { out += " h=" + bindHandle(h); kv("raw", h); }
+		if (rv == CKR_OK) { out += " h=" + bindHandle(h); kv("raw", h); presetH = h; }
 	}
 	else if (op == "genpair") {
 		// genpair <hS> <mech> <pubtemplate...> -- <privtemplate...>
@@ -600,10 +603,10 @@ static void runOp(const std::vector<std::string> &w)
 		a.push_back(""); b.push_back("");
 		for (size_t i = 3; i < w.size(); i++) { if (w[i] == "--") { second = true; continue; } (second ? b : a).push_back(w[i]); }
 		Tmpl tp, ts; parseTemplate(tp, a, 1); parseTemplate(ts, b, 1);
-		CK_OBJECT_HANDLE hp = 0, hs = 0;
+		CK_OBJECT_HANDLE hp = presetH, hs = presetH;
 		rv = F->C_GenerateKeyPair(handleArg(w[1]), m, tp.ptr(), tp.a.size(), ts.ptr(), ts.a.size(), &hp, &hs);
 		rvOut(rv);
-		if (rv == CKR_OK) { out += " pub=" + bindHandle(hp); out += " priv=" + bindHandle(hs); kv("rawpub", hp); kv("rawpriv", hs); }
+		if (rv == CKR_OK) { out += " pub=" + bindHandle(hp); out += " priv=" + bindHandle(hs); kv("rawpub", hp); kv("rawpriv", hs); presetH = hs; }
 	}
 	else if (op == "encinit" || op == "decinit" || op == "signinit" || op == "verifyinit") {
 		Mech M; CK_MECHANISM_PTR m = parseMech(M, w[2]);
@@ -655,19 +658,19 @@ static void runOp(const std::vector<std::string> &w)
 		Mech M; CK_MECHANISM_PTR m = parseMech(M, w[2]);
 		Bytes d = unhex(w[4]);
 		Tmpl t; parseTemplate(t, w, 5);
-		CK_OBJECT_HANDLE h = 0;
+		CK_OBJECT_HANDLE h = presetH;   // an application's output variable may hold anything, e.g. a live handle
 		rv = F->C_UnwrapKey(handleArg(w[1]), m, handleArg(w[3]), dptr(d), d.size(), t.ptr(), t.a.size(), &h);
 		rvOut(rv);
-		if (rv == CKR_OK) { out += " h=" + bindHandle(h); kv("raw", h); }
+		if (rv == CKR_OK) { out += " h=" + bindHandle(h); kv("raw", h); presetH = h; }
 	}
 	else if (op == "derive") {
 		// derive <hS> <mech> <hBase> <template...>
 		Mech M; CK_MECHANISM_PTR m = parseMech(M, w[2]);
 		Tmpl t; parseTemplate(t, w, 4);
-		CK_OBJECT_HANDLE h = 0;
+		CK_OBJECT_HANDLE h = presetH;   // an application's output variable may hold anything, e.g. a live handle
 		rv = F->C_DeriveKey(handleArg(w[1]), m, handleArg(w[3]), t.ptr(), t.a.size(), &h);
 		rvOut(rv);
-		if (rv == CKR_OK) { out += " h=" + bindHandle(h); kv("raw", h); }
+		if (rv == CKR_OK) { out += " h=" + bindHandle(h); kv("raw", h); presetH = h; }
 	}
 	else if (op == "mechlist") {
 		CK_SLOT_ID slot;
